@@ -14,6 +14,7 @@ open Tak
 /-- a model colour as the Go byte -/
 def colorByte (c : Color) : BitVec 8 := BitVec.ofNat 8 c.code
 
+/-- `bitboard.Popcount`: the model's popcount is the (fixed, not regenerated) `Gen.popcount64` the regenerated callers use -/
 theorem popcount_is_source (x : W) : (popcount x : Int) = Gen.popcount64 x := by
   have h : ∀ n x, popcountFuel n x = Gen.popcount64_loop n x := by
     intro n; induction n with
